@@ -104,6 +104,9 @@ pub struct LinkCfg {
     /// handshake): 0 = none, 1 = endpoint 0, 2 = endpoint 1
     #[serde(default)]
     pub ws_client: u8,
+    /// back-pressure shows in `poll_flush` instead of `poll_ready`
+    #[serde(default)]
+    pub bp_flush: bool,
 }
 #[derive(Serialize, Deserialize, Clone, Debug, PartialEq)]
 pub enum WOp {
@@ -243,7 +246,7 @@ impl Plan {
     pub fn base() -> Plan {
         Plan {
             eps: [EpCfg::default(), EpCfg::default()],
-            link: LinkCfg { window: 1 << 20, latency_ms: 0, drop_after_close: false, ws_client: 0 },
+            link: LinkCfg { window: 1 << 20, latency_ms: 0, drop_after_close: false, ws_client: 0, bp_flush: false },
             weights: [4; NCLS],
             streams: vec![],
             dg_tx: vec![],
@@ -827,6 +830,7 @@ async fn run_async(plan: Plan, sched: Sched, record: bool) -> DuoRun {
     let link = Link::new(plan.link.window.max(1), plan.link.latency_ms, seq.clone(), lat_seed ^ 0x1a7);
     link.lock().unwrap().drop_data_after_close_sent = plan.link.drop_after_close;
     link.lock().unwrap().waits_for_transport_close = [plan.link.ws_client == 1, plan.link.ws_client == 2];
+    link.lock().unwrap().backpressure_in_flush = plan.link.bp_flush;
     let world = Rc::new(RefCell::new(LinkWorld::new(link.clone())));
     let mut sim = Sim::new(&sched, plan.weights, record, world.clone(), seq.clone());
     let led: Led = Rc::new(RefCell::new(Ledger::default()));
